@@ -22,19 +22,20 @@ def sel(module, quick_re, thorough_re=None):
 # --- planner step family -----------------------------------------------------------------------
 # quick: shapes 1x1x1 1x2x1 2x1x1 2x2x1, 1 read + 1 write per group and for the new system,
 #        every barrier position, 0/1 dependencies (+ 2 / 2-equal on 2x1x1 and 1x2x1)
-STEP_Q = (r'^step_s(1g1l1|1g2l1|2g1l1|2g2l1)_r1w1_b\d_d(0|1|2|2e)_n11$|^step_s(2g1l1|2g2l1)_r1w1_b[01]_d3aba_n11$|^step_s1g1l[34]_r1w1_b0_d[01]_n11$|^step_s1g2l5_r1w1_b0_d0_n11$|^step_s1g2l1_r2w1_b0_d[01]_n12$')
+STEP_Q = (r'^step_s(1g1l1|1g2l1|2g1l1|2g2l1)_r1w1_b\d_d(0|1|2|2e)_n11$|^step_s(2g1l1|2g2l1)_r1w1_b[01]_d3aba_n11$|^step_s1g1l[34]_r1w1_b0_d[01]_n11$|^step_s1g2l5_r1w1_b0_d0_n11$|^step_s1g2l1_r2w1_b0_d[01]_n12$|^step_s1g1l1_r1w1_b0_d0_n(13|31)$|^step_s1g2l1_r2w1_b0_d0_n13$|^step_s1g1l1_r(3w1|1w3)_b0_d0_n11$')
 STEP_T = r'^step_'
 STEP_FUNCS = ['StagesBuilder::insertion_target', 'StagesBuilder::find_conflict', 'StagesBuilder::remove_ids',
               'StagesBuilder::improves_balance', 'Conflict::add', 'dispatch::util::check_intersection',
               '<ResourceId as PartialEq>::eq']
 STEP_BOUNDS = {'shapes_quick': '1x1x1 1x2x1 2x1x1 2x2x1 (+1x1x3 1x1x4 for capacity)', 'shapes_thorough': 'adds 1x2x2 1x3x1 3x1x1 2x2x2 1x1x3 1x1x4 1x2x4 2x1x2 3x2x1 and 2 reads/2 writes on 1x2x1 2x1x1 2x2x1',
-               'resources': '2 static types x 3 dynamic ids', 'reads/writes per group': '1 (quick) / <=2', 'dependencies': '0, 1, 2 distinct, 2 equal, 3 as [a,b,a]',
+               'resources': '2 static types x 3 dynamic ids', 'reads/writes per group': '1 (quick; 2 and 3 on 1x1x1 / 1x2x1) / <=2', 'reads/writes of the new system': '1 (quick; 2 and 3 on 1x1x1 / 1x2x1) / <=2', 'dependencies': '0, 1, 2 distinct, 2 equal, 3 as [a,b,a]',
                'barrier': 'every value in {0, S-1, S}', 'unwinding': 'per instance, unwinding assertions on'}
-STEP_ASSUME = ['pre-state: five tables of identical concrete shape, ids 0..n in slot order, accumulated time of a group of l systems in l..=5l (Inv I1,I2,I4,I5)',
+STEP_ASSUME = ['pre-state: five tables of identical concrete shape, the ids 0..n placed in the slots by a solver-chosen permutation, accumulated time of a group of l systems in l..=5l (Inv I1,I2,I4,I5)',
+               'the new system\'s reads reach insertion_target sorted and de-duplicated (insert does that before the call; E2 spec_insert checks it), its writes in any order with duplicates; group tables are arbitrary lists',
                'dependencies name existing system ids (DispatcherBuilder::add resolves names or panics)',
                'smallvec/arrayvec replaced by Vec-backed contract models under Kani; counterexamples are replayed on the real crates',
                'CBMC reduced check set in quick tier: no std-internal pointer checks; Rust panics, overflow, unwinding and harness assertions kept']
-STEP_OUT = ['shapes beyond the list', 'real thread timing', 'more than 2 reads/writes per group in the pre-state']
+STEP_OUT = ['shapes beyond the list', 'real thread timing', 'more than 3 reads/writes per group in the pre-state or in the new system']
 
 
 def step_part(labels_owner=None):
@@ -107,7 +108,7 @@ def commit_part(owner=None):
 
 def relabel_part():
     return {'engine': 'kani', 'family': 'relabel', 'module': 'relabel',
-            'select': sel('relabel', r'^relabel_(s1g1l1_r1w1_b0_d0_n11|s1g2l1_r1w1_b0_d0_n11|s1g2l1_r2w1_b0_d0_n12|s2g1l1_r2w1_b0_d0_n12|s1g1l2_r2w2_b0_d0_n22)$', r'^relabel_'),
+            'select': sel('relabel', r'^relabel_(s1g1l1_r1w1_b0_d0_n11|s1g2l1_r1w1_b0_d0_n11|s1g2l1_r2w1_b0_d0_n12|s2g1l1_r2w1_b0_d0_n12|s1g1l2_r2w2_b0_d0_n22|s1g1l1_r1w1_b0_d0_n13|s1g2l1_r1w1_b0_d0_n31)$', r'^relabel_'),
             'unlabelled_owner': None, 'jobs': 8, 'timeout_quick': 900, 'timeout_thorough': 2400, 'mem_gb': 20}
 
 
@@ -129,18 +130,18 @@ def unit_part(rx_quick, rx_thorough=None):
 COMMIT_FUNCS = ['StagesBuilder::insert (decision + add_stage/add_group + the five pushes)', 'smallvec/arrayvec push/extend (contract models)']
 COMMIT_BOUNDS = {'commit shapes': '0 stages | 1x1x1 | 1x2x1 | 2x1x1, barrier = number of stages (forces the NewStage target: a solver-chosen target makes the real insert index its tables symbolically - out of memory at 30 GB)',
                  'new system': '<= 2 reads, <= 2 writes (duplicates and read/write overlap allowed), symbolic time, 0/1 dependency', 'join-a-group / open-a-group paths of the commit': 'decided by E2 on the MIR of insert, all (stage, group) values'}
-RELABEL_BOUNDS = {'relabel shapes': '1x1x1 1x2x1 2x1x1 1x1x2, <= 2 reads and <= 2 writes per group and for the new system', 'relabelling': 'any permutation of the 6 resource ids (2 static types x 3 dynamic ids), any order of the 2-element lists'}
+RELABEL_BOUNDS = {'relabel shapes': '1x1x1 1x2x1 2x1x1 1x1x2, <= 2 reads and <= 2 writes per group, <= 3 reads / <= 3 writes for the new system', 'relabelling': 'any permutation of the 6 resource ids (2 static types x 3 dynamic ids), any order of the declared lists (reads reach insertion_target sorted and de-duplicated, as insert passes them)'}
 
 
 PROPS = {
-    'C01': prop('model_checking', [step_part(), commit_part(), exec_part(), mir_part(['spec_insert', 'spec_stage_exec'])], STEP_FUNCS + EXEC_FUNCS, both(STEP_BOUNDS, EXEC_BOUNDS), STEP_ASSUME + EXEC_ASSUME, STEP_OUT + EXEC_OUT, RULE_STEP + ' | ' + RULE_EXEC),
-    'C02': prop('model_checking', [step_part(), exec_part(), mir_part(['spec_add'])], STEP_FUNCS + EXEC_FUNCS + ['DispatcherBuilder::add'], both(STEP_BOUNDS, EXEC_BOUNDS), STEP_ASSUME + EXEC_ASSUME + MIR_ASSUME, STEP_OUT + EXEC_OUT, RULE_STEP + ' | ' + RULE_EXEC + ' | ' + MIR_RULE),
-    'C03': prop('model_checking', [step_part(), commit_part(), exec_part(), unit_part(r'^unit_barrier_'), mir_part(['spec_add_barrier', 'spec_insertion_target', 'spec_insert'])], STEP_FUNCS + ['StagesBuilder::add_barrier', 'DispatcherBuilder::add_barrier'], both(STEP_BOUNDS, EXEC_BOUNDS), STEP_ASSUME + EXEC_ASSUME + MIR_ASSUME, STEP_OUT + EXEC_OUT, RULE_STEP + ' | ' + RULE_EXEC + ' | ' + MIR_RULE),
+    'C01': prop('model_checking', [step_part(), commit_part(), exec_part(), mir_part()], STEP_FUNCS + EXEC_FUNCS, both(STEP_BOUNDS, EXEC_BOUNDS), STEP_ASSUME + EXEC_ASSUME, STEP_OUT + EXEC_OUT, RULE_STEP + ' | ' + RULE_EXEC),
+    'C02': prop('model_checking', [step_part(), exec_part(), mir_part()], STEP_FUNCS + EXEC_FUNCS + ['DispatcherBuilder::add'], both(STEP_BOUNDS, EXEC_BOUNDS), STEP_ASSUME + EXEC_ASSUME + MIR_ASSUME, STEP_OUT + EXEC_OUT, RULE_STEP + ' | ' + RULE_EXEC + ' | ' + MIR_RULE),
+    'C03': prop('model_checking', [step_part(), commit_part(), exec_part(), unit_part(r'^unit_barrier_'), mir_part()], STEP_FUNCS + ['StagesBuilder::add_barrier', 'DispatcherBuilder::add_barrier'], both(STEP_BOUNDS, EXEC_BOUNDS), STEP_ASSUME + EXEC_ASSUME + MIR_ASSUME, STEP_OUT + EXEC_OUT, RULE_STEP + ' | ' + RULE_EXEC + ' | ' + MIR_RULE),
     'C04': prop('model_checking', [exec_part('C04'), commit_part('C04'), mir_part()], EXEC_FUNCS + ['MultiDispatcher::run', 'DispatcherBuilder::add_batch'], EXEC_BOUNDS, EXEC_ASSUME + MIR_ASSUME, EXEC_OUT + ['hundreds of systems as one concrete plan (covered through the commit induction)'], RULE_EXEC + ' | ' + MIR_RULE),
-    'C05': prop('model_checking', [exec_part(), dict(step_part(), labels=['C01']), mir_part(['spec_insert', 'spec_stage_exec', 'spec_feature_configs'])], EXEC_FUNCS + STEP_FUNCS, EXEC_BOUNDS, EXEC_ASSUME, EXEC_OUT + ['that non-conflicting steps commute on the real World under real interleavings (reduced claim: order agreement of dispatch_par and dispatch_seq on every ordered pair)'], RULE_EXEC),
+    'C05': prop('model_checking', [exec_part(), dict(step_part(), labels=['C01']), mir_part()], EXEC_FUNCS + STEP_FUNCS, EXEC_BOUNDS, EXEC_ASSUME, EXEC_OUT + ['that non-conflicting steps commute on the real World under real interleavings (reduced claim: order agreement of dispatch_par and dispatch_seq on every ordered pair)'], RULE_EXEC),
     'C06': PROPS_C06,
     'C07': prop('other', [mir_part(), unit_part(r'^unit_fetchall_(s1g1l1_r2w2|s1g2l1_r1w1)', r'^unit_fetchall_')], ['DispatcherBuilder::add_batch', 'BatchAccessor::{new,reads,writes}', 'BatchControllerSystem::{create,run,accessor,running_time}', 'BatchUncheckedWorld::{fetch,setup}'], {'loop unrolling': 3, 'nesting': 'any depth: a nested batch is an ordinary system of the inner builder'}, MIR_ASSUME + ['fetch_all_reads/fetch_all_writes return every id of every group (E1 unit harness, thorough)', 'sort/dedup preserve membership (std contract)'], ['interleavings of outer systems with the batch (C01 applies to the batch as one system)'], MIR_RULE, 'E2 symbolic execution of the batch glue'),
-    'C10': prop('model_checking', [step_part(), exec_part()], STEP_FUNCS + ['SendDispatcher::max_threads', 'Stage::max_threads'], both(STEP_BOUNDS, EXEC_BOUNDS), STEP_ASSUME + EXEC_ASSUME, STEP_OUT, RULE_STEP + ' | ' + RULE_EXEC),
+    'C10': prop('model_checking', [step_part(), exec_part(), mir_part()], STEP_FUNCS + ['SendDispatcher::max_threads', 'Stage::max_threads', 'insertion_target::{closure#0,#1,#2} (E2, any table size)'], both(STEP_BOUNDS, EXEC_BOUNDS), STEP_ASSUME + EXEC_ASSUME + MIR_ASSUME, STEP_OUT, RULE_STEP + ' | ' + RULE_EXEC + ' | ' + MIR_RULE),
     'C11': prop('model_checking', [exec_part(), mir_part()], EXEC_FUNCS + ['DispatcherBuilder::{build,create_thread_pool,add_batch}'], EXEC_BOUNDS, EXEC_ASSUME + MIR_ASSUME, ['that real rayon with enough idle workers actually overlaps the jobs (liveness of rayon\'s scheduler)', 'async dispatcher'], RULE_EXEC + ' | ' + MIR_RULE),
     'C12': prop('model_checking', [exec_part(), mir_part()], EXEC_FUNCS + ['DispatcherBuilder::add_thread_local', 'AsyncDispatcher::wait'], EXEC_BOUNDS, EXEC_ASSUME + MIR_ASSUME, ['Dispatcher is !Send (a compile-time fact)', 'async dispatcher beyond the shape of wait()'], RULE_EXEC + ' | ' + MIR_RULE),
     'C13': prop('model_checking', [exec_part(), mir_part()], EXEC_FUNCS + ['DefaultProvider::setup', 'PanicHandler::setup'], EXEC_BOUNDS, EXEC_ASSUME + MIR_ASSUME, ['"no existing resource modified" on a populated World (hashbrown) beyond Entry::or_insert_with being the only mutation', 'async dispatcher setup'], RULE_EXEC + ' | ' + MIR_RULE),
@@ -154,7 +155,7 @@ PROPS = {
                 MIR_ASSUME + ['rayon::join / ThreadPool::join run both closures exactly once and return after both (contract)'], ['real overlap of par children', 'release builds do not check conflicts (cfg!(debug_assertions))'], MIR_RULE, 'E2: Par/Seq node bodies for all H, T'),
     'C17': prop('other', [mir_part()], ['attach_vtable', 'MetaTable::{register,get,get_mut,iter,iter_mut} + closures', 'MetaIter::next', 'MetaIterMut::next'], {'loop unrolling': 3, 'feature': 'non-nightly'},
                 MIR_ASSUME + ['std HashMap::entry/len/get contracts', 'calling through the attached vtable is the compiler\'s business'], ['hashbrown', 'the nightly feature variant', 'machine-level vtable identity'], MIR_RULE, 'E2: meta table bodies'),
-    'C19': prop('model_checking', [relabel_part(), commit_part(), mir_part(['spec_insert', 'spec_add', 'spec_feature_configs'])], STEP_FUNCS + COMMIT_FUNCS, both(RELABEL_BOUNDS, COMMIT_BOUNDS), STEP_ASSUME + MIR_ASSUME,
+    'C19': prop('model_checking', [relabel_part(), commit_part(), mir_part()], STEP_FUNCS + COMMIT_FUNCS, both(RELABEL_BOUNDS, COMMIT_BOUNDS), STEP_ASSUME + MIR_ASSUME,
                 ['cross-process / cross-compiler comparison (TypeId order is only used by sort, shown not to influence decisions)'], RULE_STEP + ' | ' + MIR_RULE),
     'C20': prop('other', [mir_part()], ['StagesBuilder::write_par_seq + closure', '<DispatcherBuilder as Debug>::fmt'], {'loop unrolling': 1}, MIR_ASSUME + ['ids table and executed list are in lock-step (C04 commit)'],
                 ['the text for arbitrary names (String/fmt machinery is not executed)', 'empty builders beyond the 0-iteration paths'], MIR_RULE, 'E2: plan printer structure and totality of the name lookup'),
